@@ -1833,6 +1833,8 @@ class Engine:
             h = self.attr_models.get(("<getitem>",))
             if h:
                 return h(self, path, o, k)
+            if isinstance(k, Sym) and self.tag_of(path, k) == "StrV":
+                k = self.as_sstr(path, k)
             if isinstance(k, (str, SStr)):
                 # mapping-like external object: KeyError iff the key is absent (assumed contract of the dependency)
                 kt = z3.StringVal(k) if isinstance(k, str) else k.term()
